@@ -253,8 +253,34 @@ REG_FAMILIES = {"array": fam_array, "object": fam_object, "args": fam_args, "par
                 "switch": fam_switch, "seqexpr": fam_seqexpr, "concat": fam_concat, "elseif": fam_elseif, "destructure": fam_destructure,
                 "destructure_rest": fam_destructure_rest, "destructure_holes": fam_destructure_holes, "destructure_params": fam_destructure_params,
                 "object_pattern": fam_object_pattern, "spread_calls": fam_spread_calls, "optional_chain": fam_optional_chain}
+BODY_KINDS = {          # (declarations around the statements, expression giving the result)
+    "function": ("function g() { let s = 0;\nSTMTS return s; }", "g()"),
+    "method": ("class K { m() { let s = 0;\nSTMTS return s; } }", "new K().m()"),
+    "constructor": ("class K { s: number; constructor() { let s = 0;\nSTMTS this.s = s; } }", "new K().s"),
+    "derived_constructor": ("class B { b = 1; } class K extends B { s: number; constructor() { super(); let s = 0;\nSTMTS this.s = s; } }", "new K().s"),
+    "arrow": ("const ar = () => { let s = 0;\nSTMTS return s; };", "ar()"),
+    "getter": ("const og = { get g() { let s = 0;\nSTMTS return s; } };", "og.g"),
+    "static_block": ("let out = 0; class K { static { let s = 0;\nSTMTS out = s; } }", "out"),
+    "generator": ("function* g() { let s = 0;\nSTMTS yield s; }", "g().next().value"),
+    "block_in_loop": ("let s = 0; for (let once = 0; once < 1; once++) {\nSTMTS }", "s"),
+    "catch_body": ("let s = 0; try { throw 1; } catch (e) {\nSTMTS }", "s"),
+    "namespace": ("namespace N { export let s = 0;\nSTMTS }", "N.s"),
+}
+
+
+def fam_body(kind):
+    """n small statements, each reserving a window (call arguments, an array literal, a template), as the body of every kind of code block"""
+    def fam(n):
+        stmts = "".join(("s = f(s, %d, 1);\n" % (i % 7), "s += [1, 2, %d].length - 3 + %d;\n" % (i, i % 7), "s += `${%d}${s}`.length > 0 ? %d : 0;\n" % (i, i % 7))[i % 3] for i in range(n))
+        decl, expr = BODY_KINDS[kind]
+        src = "let keep = 4242; function f(a: number, b: number, c: number) { return a + b; }\n" + decl.replace("STMTS", stmts) + "\n[keep, %s].join(',')" % expr
+        return src, "4242,%d" % sum(i % 7 for i in range(n))
+    return fam
+
+
 CUMULATIVE = {"statements": fam_statements, "arraystmts": fam_arraystmts, "decls": fam_decls, "lengths": fam_lengths}
 CONST_FAMILIES = {"numconsts": fam_numconsts, "strconsts": fam_strconsts}
+CUMULATIVE.update({"body_" + k: fam_body(k) for k in BODY_KINDS})
 
 
 def sizes(tier):
